@@ -279,10 +279,7 @@ def r4_closed_callees(ctx):
 
 
 def run(ctx):
-    r1_polarity(ctx)
-    r2_matrix(ctx)
-    r3_narrowing_direction(ctx)
-    r4_closed_callees(ctx)
+    ctx.run_rules([r1_polarity, r2_matrix, r3_narrowing_direction, r4_closed_callees])
     ctx.note("NOT decided: soundness/transitivity of the coinductive relation over all type graphs; completeness of overlap inside structural arms "
              "(e.g. partial-vs-partial patterns are limited by the compiler's static field indexing, observation F14 in DESIGN.md)")
     return (
